@@ -24,6 +24,14 @@ CLAIMED = {
              ref='DESIGN.md §4 C18', note='The suggestion is not re-parsed by the real parser (string-level); its words are decoded with the digit rule that C11 ties to compute_value.'),
  'C19': dict(text='Bounded model checking of the repeated-identifier pass on one statement of every kind with symbolic names (any two mentions may or may not coincide) against the reference rule, and of Linter::run ordering (stable by line, ties in pass order) on two-statement programs over all line placements; program untouched; no panic edge.',
              ref='DESIGN.md §4 C19', note='sort_by_key modelled as the unique stable order.'),
+ 'C04': dict(text='Program-level bounded model checking: control-flow templates are parsed by the real parser inside the VM, their literal placeholders made symbolic, and executed by the real interpreter (exec_using from MIR with model streams) and by a reference interpreter; z3 compares every written line and the outcome on every feasible path.',
+             ref='DESIGN.md §4 C04 (revised: program level, see §9)', note='Reference interpreter = mirsym/refinterp.py; the VM is validated per run against the native build on the repository\'s own test programs (parse + exec).  Loop iterations <= 4.'),
+ 'C05': dict(text='As C04 on 25 templates for argument passing, scopes, pronouns, returns, recursion, arity / kind / unknown-name errors, evaluation order, arrays by value, compound assignment and nested subscript writes; all placeholder values symbolic.',
+             ref='DESIGN.md §4 C05 (revised: program level)', note='Same trusted base as C04.'),
+ 'C08': dict(text='As C04 with faulting streams: 0..=3 symbolic input lines (last with / without terminator), output and input streams failing from any call index on; write records, read counts and outcome compared with the reference.',
+             ref='DESIGN.md §4 C08 (revised: program level)', note='Write / BufRead are environment models, one record per call.'),
+ 'C15': dict(text='Metamorphic bounded model checking: each template is run by the real parser + interpreter in its original spelling and under every naming scheme (simple / common / proper names, re-cased, fresh), per-mention re-casing and keyword re-casing; z3 shows equal outputs and outcomes for all placeholder values.',
+             ref='DESIGN.md §4 C15 (revised: program level)', note='No reference interpreter involved.  ASCII names.'),
 }
 NA = {
 }
